@@ -401,4 +401,39 @@ theorem filter_nonEmpty_flatten (chunks : List Bytes) :
       simp [this, ih]
     | false => simp [ih]
 
+theorem alpha_not_space_quote (c : Char) (h : c.isAlpha = true) :
+    Py.isSpace c = false ∧ c ≠ '"' ∧ c ≠ '/' := by
+  have hn : (65 ≤ c.toNat ∧ c.toNat ≤ 90) ∨ (97 ≤ c.toNat ∧ c.toNat ≤ 122) := by
+    simp only [Char.isAlpha, Char.isUpper, Char.isLower, Bool.or_eq_true, Bool.and_eq_true,
+      decide_eq_true_eq] at h
+    simp only [UInt32.le_iff_toNat_le] at h
+    have e : c.val.toNat = c.toNat := rfl
+    simp only [e] at h
+    rcases h with h | h
+    · left; exact ⟨h.1, h.2⟩
+    · right; exact ⟨h.1, h.2⟩
+  refine ⟨?_, ?_, ?_⟩
+  · simp only [Py.isSpace]; simp; omega
+  all_goals (intro e; subst e; revert hn; decide)
+
+theorem httpDate_not_etag_like (t : Nat) (h : InDateRange t) : looksLikeEtag (Date.httpDate t) = false := by
+  have hp := Date.date_roundtrip_any t h.1 h.2
+  generalize Date.httpDate t = s at hp
+  unfold Date.parseDate Date.parseImfFixdate at hp
+  split at hp
+  · rename_i w1 w2 w3 d1 d2 m1 m2 m3 y1 y2 y3 y4 h1 h2 i1 i2 s1 s2
+    by_cases ha : (w1.isAlpha && w2.isAlpha && w3.isAlpha) = true
+    · simp only [Bool.and_eq_true] at ha
+      have a1 := alpha_not_space_quote w1 ha.1.1
+      have a2 := alpha_not_space_quote w2 ha.1.2
+      unfold looksLikeEtag
+      simp only [List.dropWhile_cons, a1.1, Bool.false_eq_true, ↓reduceIte]
+      split
+      · rename_i heq; simp only [List.cons.injEq] at heq; exact absurd heq.1 a1.2.1
+      · rename_i heq; simp only [List.cons.injEq] at heq; exact absurd heq.2.1 a2.2.2
+      · rename_i heq; simp only [List.cons.injEq] at heq; exact absurd heq.2.1 a2.2.2
+      · rfl
+    · simp [ha] at hp
+  · simp at hp
+
 end Wz.Cond
